@@ -15,20 +15,24 @@ BOUNDS = {
 }
 
 
-def measure(lb, runmon, memshim, args, stdin_path, throttle):
+def measure(lb, runmon, memshim, args, stdin_path, throttle, sched=None):
     rep = core.tmppath('.rep')
     mem = core.tmppath('.mem')
     env = {'LD_PRELOAD': memshim, 'MEMSHIM_OUT': mem}
+    if sched:
+        env['LBZIP2_VERIF_SCHED'] = sched
     argv = [runmon, '-r', rep, '--', lb] + args
     if throttle:
         r = core.run(argv, stdin=stdin_path, env=env, timeout=900, drain=throttle)
     else:
         r = core.run(argv, stdin=stdin_path, env=env, timeout=900, stdout_path='/dev/null')
-    heap = rss = None
+    heap = rss = retained = None
     try:
         with open(mem) as f:
-            heap = int(f.read().strip() or 0)
-    except (FileNotFoundError, ValueError):
+            lines = f.read().split()
+        heap = int(lines[0])
+        retained = int(lines[1]) if len(lines) > 1 else None
+    except (FileNotFoundError, ValueError, IndexError):
         pass
     try:
         with open(rep) as f:
@@ -41,14 +45,14 @@ def measure(lb, runmon, memshim, args, stdin_path, throttle):
             os.unlink(p)
         except OSError:
             pass
-    return r, heap, rss
+    return r, heap, rss, retained
 
 
 def run(ctx):
     ctx.rule = ('peak live heap (LD_PRELOAD malloc accounting) and peak RSS (wait4 ru_maxrss via a small launcher) of lbzip2 for inputs of '
                 '1x/4x/16x size at 1/2/4/8 workers: incompressible data, zeros, concatenated decompression bombs (47 MB from 40 bytes each); '
                 '(a) fast sink: the peak at every size must be under the same fixed linear bound (growth with size would break it at the larger sizes); (b) throttled reader: '
-                'every output slot fills, peak must still be under the bound; non-trivial = distinct (direction, workload, size, workers, sink)')
+                'every output slot fills, peak must still be under the bound; (c) schedule-perturbed runs (H1 straggler, jitter) and the heap bytes still allocated at _exit: a retained amount that grows from 1x to 4x to 16x input is unbounded memory; non-trivial = distinct (direction, workload, size, workers, sink)')
     q = ctx.quick()
     lb = core.build_lbzip2('hook')
     runmon = core.build_native('runmon')
@@ -125,20 +129,26 @@ def run(ctx):
     jobs = []
     for (direction, kind, m), path in sorted(files.items()):
         for w in ws:
-            jobs.append((direction, kind, m, w, path, None))
+            jobs.append((direction, kind, m, w, path, None, None))
+    # perturbed schedules (H1): buffers whose release depends on who lets go last
+    for (direction, kind, m), path in sorted(files.items()):
+        if kind == 'incompressible':
+            for w in (2, 4):
+                for sched in ('%d:straggler:40' % (ctx.seed * 7 + w), '%d:jitter' % (ctx.seed * 11 + w)):
+                    jobs.append((direction, kind, m, w, path, None, sched))
     # saturation runs: throttled reader
     for w in ws:
-        jobs.append(('decompress', 'bomb', 4, w, files[('decompress', 'bomb', 4)], (1 << 16, 0.001)))
-        jobs.append(('decompress', 'incompressible', 4, w, files[('decompress', 'incompressible', 4)], (1 << 14, 0.002)))
-        jobs.append(('compress', 'incompressible', 4, w, files[('compress', 'incompressible', 4)], (1 << 12, 0.002)))
+        jobs.append(('decompress', 'bomb', 4, w, files[('decompress', 'bomb', 4)], (1 << 16, 0.001), None))
+        jobs.append(('decompress', 'incompressible', 4, w, files[('decompress', 'incompressible', 4)], (1 << 14, 0.002), None))
+        jobs.append(('compress', 'incompressible', 4, w, files[('compress', 'incompressible', 4)], (1 << 12, 0.002), None))
 
     def one(j):
-        direction, kind, m, w, path, throttle = j
+        direction, kind, m, w, path, throttle, sched = j
         args = (['-d'] if direction == 'decompress' else ['-9']) + ['-n', str(w)]
-        r, heap, rss = measure(lb, runmon, memshim, args, path, throttle)
+        r, heap, rss, retained = measure(lb, runmon, memshim, args, path, throttle, sched)
         ctx.ev()
-        desc = dict(direction=direction, workload=kind, size_multiple=m, workers=w, throttled=bool(throttle),
-                    input_bytes=os.path.getsize(path), peak_heap=heap, peak_rss=rss)
+        desc = dict(direction=direction, workload=kind, size_multiple=m, workers=w, throttled=bool(throttle), sched=sched,
+                    input_bytes=os.path.getsize(path), peak_heap=heap, peak_rss=rss, retained_at_exit=retained)
         if lbz.bad_ending(ctx, r, 'memory run %s' % desc, None, dict(desc, argv=['lbzip2'] + args)):
             return None
         if r.rc != 0 or heap is None or rss is None:
@@ -151,7 +161,7 @@ def run(ctx):
                 ctx.violation('over-bound:%s:%s:%s' % (direction, what, 'throttled' if throttle else 'fast-sink'),
                               'peak %s %.1f MiB exceeds the fixed bound %.1f MiB (= %.1f + %.1f x %d workers): %s'
                               % (what, val / MiB, bound / MiB, c0 / MiB, c1 / MiB, w, desc), None, dict(desc, argv=['lbzip2'] + args))
-        ctx.nt((direction, kind, m, w, bool(throttle)))
+        ctx.nt((direction, kind, m, w, bool(throttle), sched))
         return desc
     res = [x for x in core.pmap(one, jobs, jobs=4) if x]
     # growth with size: every size, including the largest, must obey the same fixed bound (checked above).
@@ -160,13 +170,26 @@ def run(ctx):
     groups = {}
     for d in res:
         if not d['throttled']:
-            groups.setdefault((d['direction'], d['workload'], d['workers']), []).append(d)
+            groups.setdefault((d['direction'], d['workload'], d['workers'], d['sched'] or ''), []).append(d)
     growth = []
     for key, ds in sorted(groups.items()):
         ds.sort(key=lambda d: d['size_multiple'])
         if len(ds) >= 2:
             growth.append(dict(group=list(key), sizes=[d['size_multiple'] for d in ds],
                                peak_heap_MiB=[round(d['peak_heap'] / MiB, 1) for d in ds]))
+    # (c) heap bytes still allocated when the process leaves: an amount that keeps growing with the input size (1x -> 4x -> 16x)
+    # is memory that no worker-count bound covers, however small each run's share is
+    for key, ds in sorted(groups.items()):
+        rs = [(d['size_multiple'], d['retained_at_exit']) for d in ds if d['retained_at_exit'] is not None]
+        ctx.count('retained_at_exit_series', 1 if len(rs) >= 3 else 0)
+        if len(rs) >= 3:
+            ctx.maxmon('max_retained_at_exit_bytes', max(x[1] for x in rs))
+            first, mid, last = rs[0][1], rs[len(rs) // 2][1], rs[-1][1]
+            if last - first > 512 * 1024 and last > mid >= first:
+                ctx.violation('retained-grows:%s:%s' % (key[0], 'perturbed' if key[3] else 'plain'),
+                              'heap still allocated at exit grows with the input size: %s bytes at sizes %s (%s %s, %d workers, schedule %s)'
+                              % ([x[1] for x in rs], [x[0] for x in rs], key[0], key[1], key[2], key[3] or 'unperturbed'), None,
+                              dict(group=list(key), series=rs))
     ctx.extra['peak_heap_by_size'] = growth
     ctx.extra['measurements_MiB'] = [dict(d, peak_heap=round(d['peak_heap'] / MiB, 2), peak_rss=round(d['peak_rss'] / MiB, 2)) for d in res]
     ctx.maxmon('max_peak_heap_MiB', int(max(d['peak_heap'] for d in res) / MiB) if res else 0)
